@@ -17,7 +17,11 @@
    replayer derives it by reading ahead to the thread's releasing CAS (site 104: was MU_WAITING cleared?) and from the
    snapshot that follows the acquiring CAS (the real mutex queue at the moment of the test), and FAILS if the implementation
    cleared the bit while the model's muq is non-empty or the real queue was not, or kept it while the real queue was empty
-   ([f15_choice]; counters f15:cleared / f15:kept-transferred / f15:kept-transferred+plain / f15:kept-plain-locker). *)
+   ([f15_choice]; counters f15:cleared / f15:kept-transferred / f15:kept-transferred+plain / f15:kept-plain-locker).
+   Waits through nsync_cv_wait_with_deadline_generic (cv_mix MODE 5 / 6: note "wait <t> <deadline> <cancellable> <generic>") are
+   replayed as [OWait _ _ true].  F16 (wake_waiters transfers only waiters with cv_mu == pmu): after the CAS that takes the mutex
+   spinlock nothing the model left on to_wake_list may be on the real mutex queue (snapshot after that event); counter
+   f16:generic-woken-not-transferred = generic waiters the model left on to_wake_list inside a mutex spinlock section. *)
 open Rcommon
 open CvModel
 
@@ -57,7 +61,7 @@ let () =
   let main_blk : (int, string) Hashtbl.t = Hashtbl.create 16 in
   let thread_of_blk : (string, int) Hashtbl.t = Hashtbl.create 16 in
   let wn_rec : (int, int) Hashtbl.t = Hashtbl.create 16 in
-  let wait_info : (int, int * bool) Hashtbl.t = Hashtbl.create 16 in
+  let wait_info : (int, int * bool * bool) Hashtbl.t = Hashtbl.create 16 in   (* deadline, cancellable, generic *)
   let waitn_info : (int, int) Hashtbl.t = Hashtbl.create 16 in
   let futex_seen : (int, bool) Hashtbl.t = Hashtbl.create 16 in
   let pending_post : (int, int) Hashtbl.t = Hashtbl.create 16 in       (* unlocker thread -> waiter it owes a post *)
@@ -255,10 +259,11 @@ let () =
     (* entry of a call *)
     if cls t = 0 then begin
       match key with
-      | 201 -> let (d, c) = (try Hashtbl.find wait_info t with Not_found -> fail "wait without an announcing note") in
+      | 201 -> let (d, c, g) = (try Hashtbl.find wait_info t with Not_found -> fail "wait without an announcing note") in
         learn_blk t (obj_region e.obj);
         if (try Hashtbl.find main_blk t <> obj_region e.obj with Not_found -> false) then fail "the thread's waiter struct changed";
-        push t (OWait (dl_opt d, c, false))
+        cover (if g then "wait:generic" else "wait:native");
+        push t (OWait (dl_opt d, c, g))
       | 301 -> push t OSignal
       | 401 -> push t OBroadcast
       | 801 -> let d = (try Hashtbl.find waitn_info t with Not_found -> fail "nsync_wait_n without an announcing note") in
@@ -307,6 +312,19 @@ let () =
      | _, EvCrash -> fail "model thread crashed"
      | _, _ -> fail ("event kinds differ (implementation " ^ e.kind ^ ")"));
     if cls t = 3 then Hashtbl.replace futex_seen t false;
+    (* F16: after the CAS of wake_waiters that took the mutex spinlock, nothing the model left on to_wake_list (non-native records,
+       waiters not associated with the mutex) may be on the real mutex queue (snapshot taken after this event) *)
+    if key = 102 && e.kind = "cas" && e.ok then begin
+      let stay = Stdlib.List.map int_of_nat (CvReplay.wake_list !w (nat t)) in
+      let g = int_of_nat (CvReplay.generic_left !w (nat t)) in
+      for _ = 1 to g do cover "f16:generic-woken-not-transferred" done;
+      if !pos < nl && String.length lines.(!pos) > 2 && lines.(!pos).[0] = 'S' then
+        (match parse_snapshot lines.(!pos) with
+         | Some (_, mq) ->
+           Stdlib.List.iter (fun x -> if Stdlib.List.mem x stay then
+                                fail (Printf.sprintf "the implementation moved record %d to the mutex queue, the model leaves it on to_wake_list (woken directly)" x)) mq
+         | None -> ())
+    end;
     if o = -2 && e.kind = "cas" && e.ok then check_mu_word e.b in
   (try
      while true do
@@ -342,7 +360,8 @@ let () =
        end else if String.length line > 2 && line.[0] = 'N' then begin
          last_ev := line;
          match String.split_on_char ' ' line with
-         | [_; _; "wait"; t; d; c] -> Hashtbl.replace wait_info (int_of_string t) (int_of_string d, c = "1")
+         | [_; _; "wait"; t; d; c] -> Hashtbl.replace wait_info (int_of_string t) (int_of_string d, c = "1", false)
+         | [_; _; "wait"; t; d; c; g] -> Hashtbl.replace wait_info (int_of_string t) (int_of_string d, c = "1", g = "1")
          | [_; _; "waitn"; t; d] -> Hashtbl.replace waitn_info (int_of_string t) (int_of_string d)
          | [_; _; ("ret" | "retn") as k; t; r] ->
            let t = int_of_string t and r = int_of_string r in
